@@ -349,6 +349,8 @@ def _run(task, I, res, seed, tier):
     have_band = task.lower is not None
     cobs = [(p, task.observe(I, p)) for p in code_paths]
     for p, o in cobs:
+        if isinstance(o, Escape) and isinstance(o.exc, getattr(task, "admitted_escapes", ())):
+            continue        # the task's own obligations decide when this exception is the specified outcome
         if isinstance(o, Escape):
             # an escaping path is feasible by construction of the DFS: decode its path condition
             st, model, backend, secs = solve.check(list(I.assumptions) + p["pc"])
